@@ -66,3 +66,76 @@ def py_eval(code, timeout=120):
     env["PYTHONPATH"] = REPO
     p = subprocess.run(["/venv/bin/python", "-c", code], capture_output=True, text=True, timeout=timeout, env=env, cwd="/tmp")
     return p.returncode, p.stdout.strip(), p.stderr.strip()[-2000:]
+
+
+def asan_lib(name="phonopy"):
+    """AddressSanitizer build of the same sources (used only to replay refuted bounds obligations)."""
+    out = os.path.join(_tmp(), "%s_asan.so" % name)
+    c = os.path.join(REPO, "c")
+    srcs = [os.path.join(c, f) for f in ("phonopy.c", "dynmat.c", "derivative_dynmat.c", "rgrid.c", "tetrahedron_method.c")]
+    from .cfront import build_defines
+    flags = ["-Dstatic="] + ["-D" + d for d in build_defines()]
+    cmd = ["gcc", "-O1", "-g", "-fsanitize=address", "-fno-omit-frame-pointer", "-fPIC", "-shared", "-I" + c] + flags + srcs + ["-lm", "-o", out]
+    p = subprocess.run(cmd, capture_output=True, text=True)
+    if p.returncode != 0:
+        raise RuntimeError("gcc -fsanitize=address failed: %s" % p.stderr[-500:])
+    return out
+
+
+_ASAN_CHILD = r"""
+import ctypes, pickle, sys
+import numpy as np
+so, path = sys.argv[1], sys.argv[2]
+func, cases = pickle.load(open(path, "rb"))
+lib = ctypes.CDLL(so)
+f = getattr(lib, func)
+f.restype = None
+CT = {"double": ctypes.c_double, "int64": ctypes.c_int64, "int": ctypes.c_int, "char": ctypes.c_char}
+for n, case in enumerate(cases):
+    sys.stdout.write("CASE %d\n" % n); sys.stdout.flush()
+    args, keep = [], []
+    for kind, ct, val in case:
+        if kind == "scalar":
+            args.append(CT[ct](val))
+        elif val is None:
+            args.append(None)
+        else:
+            # exact-size heap allocation so that the sanitizer sees the true bounds of the array
+            a = np.ascontiguousarray(val)
+            buf = (ctypes.c_char * max(a.nbytes, 1))()
+            ctypes.memmove(buf, a.ctypes.data, a.nbytes)
+            keep.append(buf)
+            args.append(ctypes.cast(buf, ctypes.c_void_p))
+    f(*args)
+print("ALL-OK")
+"""
+
+
+def asan_run(func, cases, timeout=300):
+    """cases: list of argument lists [(kind, ctype name, value)].  Runs the sanitizer build in a child process;
+    returns (index of the failing case or None, sanitizer report)."""
+    import pickle
+    import sys
+    so = asan_lib()
+    d = _tmp()
+    path = os.path.join(d, "asan_cases.pkl")
+    with open(path, "wb") as fh:
+        pickle.dump((func, cases), fh)
+    script = os.path.join(d, "asan_child.py")
+    with open(script, "w") as fh:
+        fh.write(_ASAN_CHILD)
+    env = dict(os.environ)
+    env["LD_PRELOAD"] = subprocess.run(["gcc", "-print-file-name=libasan.so"], capture_output=True, text=True).stdout.strip()
+    env["ASAN_OPTIONS"] = "detect_leaks=0:halt_on_error=1"
+    p = subprocess.run([sys.executable, script, so, path], capture_output=True, text=True, timeout=timeout, env=env)
+    if "ALL-OK" in p.stdout:
+        return None, ""
+    idx = None
+    for line in p.stdout.splitlines():
+        if line.startswith("CASE "):
+            idx = int(line.split()[1])
+    rep = p.stderr
+    k = rep.find("ERROR: AddressSanitizer")
+    if k < 0:
+        return None, "child failed without a sanitizer report: " + rep[-400:]
+    return idx, rep[k:k + 1200]
